@@ -16,15 +16,6 @@ impl Operation {
         ensures forall|c: char| #![trigger r.0.has(c)] #![trigger op_first_set(*self, case_blind, c)] r.0.has(c) == op_first_set(*self, case_blind, c),
     { unimplemented!() }
 
-    #[verifier::external_body]
-    pub fn contains_capturing_expressions(&self) -> (r: bool) { unimplemented!() }
-    #[verifier::external_body]
-    pub fn matches_empty_string(&self) -> (r: u32) ensures r == op_matches_empty(*self), { unimplemented!() }
-    #[verifier::external_body]
-    pub fn get_match_length(&self) -> (r: Option<usize>) ensures r == op_match_length(*self), { unimplemented!() }
-    #[verifier::external_body]
-    pub fn get_minimum_match_length(&self) -> (r: usize) { unimplemented!() }
-
     // A-CLONE: #[derive(Clone)] is structural identity
     #[verifier::external_body]
     pub fn clone(&self) -> (r: Operation)
